@@ -250,7 +250,9 @@ def r3_dial_vs_name(ctx, R3):
             ok = st == ["p:value"]
     ctx.ob(R3, f"{HC}.host", "assigning host stores the dialled name unchanged", ok)
     sc = m.method(f"{CN}.HTTPSConnection", "connect")
-    rows = effect_rows(ctx, sc, GenRule(ctx, sc.module, field_consts={}), f"{CN}.HTTPSConnection", budget=4000000)
+    inl_sc = frozenset(q_ for q_ in helper_closure(ctx.model, [sc], stop=("_connect_tls_proxy", "_tunnel", "_new_conn")) - {sc.qual}
+                       if q_.rsplit(".", 1)[-1] not in ("_ssl_wrap_socket_and_match_hostname", "_connect_tls_proxy", "_tunnel", "_new_conn"))
+    rows = effect_rows(ctx, sc, GenRule(ctx, sc.module, inline=inl_sc, field_consts={}), f"{CN}.HTTPSConnection", budget=4000000)
     seen = set()
     n = 0
     for r in rows:
